@@ -93,6 +93,8 @@ def apply_real(name, a, b, extra):
     if name == "to":
         return a.to(u(extra["unit"]).units)
     if name == "shift":
+        if extra.get("unit", "hour") == "minute":
+            return a.return_shifted_hourly_quantities(ExplainableQuantity(extra["k"] * 60 * u.min, "shift"))
         return a.return_shifted_hourly_quantities(ExplainableQuantity(extra["k"] * u.hour, "shift"))
     if name == "round":
         return round(a, extra["n"])
@@ -142,7 +144,9 @@ def gen_case(rng):
             extra["unit"] = rng.choice(UNIT_POOL[a["fam"]]) if a["k"] != "e" and rng.random() < 0.85 \
                 else rng.choice(UNIT_POOL[rng.choice(list(UNIT_POOL))])
         if opn == "shift":
-            extra["k"] = rng.choice([0, 1, 2, 5, 0.5, 1.75, 26])
+            # whole and fractional hours of both signs (the hour bucket of t + d is t + floor(d)), written in hours or minutes
+            extra["k"] = rng.choice([0, 1, 2, 5, 0.5, 1.75, 26, -1, -3, -0.5, -1.5, -2.25, -0.25])
+            extra["unit"] = rng.choice(["hour", "hour", "minute"])
         if opn == "round":
             extra["n"] = rng.choice([0, 1, 2, 4])
     return {"op": opn, "a": a, "b": b, "extra": extra}
@@ -171,7 +175,10 @@ def lean_request(case):
     if case["op"] == "to":
         r["unit"] = leanio.unit_json(realsys.unit_info, case["extra"]["unit"])
     if case["op"] == "shift":
-        r["k"] = math.floor(case["extra"]["k"])
+        # the model takes the floor itself, from the duration as written (hours or minutes)
+        r["op"] = "shiftd"
+        ex = case["extra"]
+        r["b"] = lean_operand({"k": "q", "m": ex["k"] * 60, "u": "minute"} if ex.get("unit") == "minute" else {"k": "q", "m": ex["k"], "u": "hour"})
     if case["op"] == "round":
         r["n"] = case["extra"]["n"]
     if case["op"] == "copy":
